@@ -34,7 +34,7 @@ class Pseq(ListPattern):
     def __embed__(self, inval):
         # if (inval.eventAt('reverse') == true, { # Not good.
         lst = self.lst
-        offset = self.offset
+        offset = self.offset % len(lst) if lst else 0
         for _ in bi.counter(self.repeats):
             for item in lst[offset:]:
                 inval = yield from stm.embed(item, inval)
@@ -133,7 +133,7 @@ class Ptuple(ListPattern):
 class Place(Pseq):
     def __embed__(self, inval):
         lst = self.lst
-        offset = self.offset
+        offset = self.offset % len(lst) if lst else 0
         lst = lst[offset:] + lst[:offset]
         for j in bi.counter(self.repeats):
             for item in lst:
